@@ -65,7 +65,17 @@ pub fn run_c17(args: &Args) -> Report {
                             acc = if acc.is_empty() { part.to_string() } else { format!("{acc}/{part}") };
                             dirs.push(acc.clone());
                         }
-                        let p = Project { files: vec![(src.clone(), text.clone().into_bytes())], dirs, cmds: vec![(joined.clone(), acts)], sources: vec![src.clone()], sig: vec![], expect_error: fails };
+                        // every other case: the directory txtpp is started in has entries named like the shell (`sh/`, `bash/`):
+                        // the shell is looked up on PATH, never taken from the working directory
+                        let mut files = vec![(src.clone(), text.clone().into_bytes())];
+                        let mut dirs = dirs;
+                        if case_no % 2 == 1 {
+                            dirs.push("sh".to_string());
+                            dirs.push("bash".to_string());
+                            files.push(("sh/hello.sh".to_string(), b"echo hello\n".to_vec()));
+                            files.push(("bash/x.txt".to_string(), b"x\n".to_vec()));
+                        }
+                        let p = Project { files, dirs, cmds: vec![(joined.clone(), acts)], sources: vec![src.clone()], sig: vec![], expect_error: fails };
                         materialize(&p, &runner.dir);
                         let _ = std::fs::remove_file(&argv_log);
                         std::env::set_var("VERIF_ARGV", &argv_log);
@@ -215,6 +225,48 @@ pub fn run_c17(args: &Args) -> Report {
                 rep.violation("divergence", &format!("C17: shell setting {:?}, command {:?}: the child received {:?}, the Lean model of Shell::new/run gives {:?}", sh, cmd, log, want), &format!("# shell {sh:?} command {cmd:?}\ncfg: build true false 1\n"));
             }
         }
+    }
+    // a source OUTSIDE the base directory whose absolute path merely starts with the text of the base path
+    // (`<base>-docs/...`): TXTPP_FILE must still designate it (it is the absolute path then)
+    if args.shard == 0 {
+        let base = runner.dir.clone();
+        let sib = std::path::PathBuf::from(format!("{}-docs", base.display()));
+        let _ = std::fs::remove_dir_all(&sib);
+        std::fs::create_dir_all(&sib).unwrap();
+        let _ = std::fs::remove_dir_all(&base);
+        std::fs::create_dir_all(&base).unwrap();
+        let text = "head\n// TXTPP#run printf %s \"$TXTPP_FILE\"\ntail\n";
+        let rel_input = format!("../{}/g.txt.txtpp", sib.file_name().unwrap().to_string_lossy());
+        for entry in ["lib", "cli"] {
+            std::fs::write(sib.join("g.txt.txtpp"), text).unwrap();
+            let _ = std::fs::remove_file(sib.join("g.txt"));
+            let ok = if entry == "lib" {
+                std::env::set_current_dir(&base).unwrap();
+                let config = txtpp::Config { base_dir: ".".into(), shell_cmd: String::new(), inputs: vec![rel_input.clone()], recursive: false, num_threads: 2, mode: txtpp::Mode::Build, verbosity: txtpp::Verbosity::Quiet, trailing_newline: true };
+                std::env::remove_var("TXTPP_FILE");
+                let r = txtpp::Txtpp::run(config).is_ok();
+                std::env::set_current_dir(&orig_cwd).unwrap();
+                r
+            } else if bin.exists() {
+                Command::new(&bin).current_dir(&base).env_remove("TXTPP_FILE").arg("-q").arg(&rel_input).output().map(|o| o.status.success()).unwrap_or(false)
+            } else {
+                continue;
+            };
+            rep.evaluations += 1;
+            rep.sigs.insert(format!("outside-base-textual-prefix|{entry}"));
+            let out = std::fs::read_to_string(sib.join("g.txt")).unwrap_or_default();
+            let body = out.strip_prefix("head\n").unwrap_or(&out).strip_suffix("tail\n").unwrap_or(&out).to_string();
+            let designated = base.join(&body);
+            let same = designated.canonicalize().ok() == sib.join("g.txt.txtpp").canonicalize().ok();
+            if !ok || !same {
+                rep.violation(
+                    "oracle",
+                    &format!("C17: source `{rel_input}` outside the base directory {:?} ({entry}): run ok={ok}, TXTPP_FILE = {:?} - joined to the base directory it does not designate the source", base, body),
+                    &format!("# base {:?}, input {rel_input}, source text {:?}\ncfg: build true false 2\n", base, text),
+                );
+            }
+        }
+        let _ = std::fs::remove_dir_all(&sib);
     }
     // the same command text in sibling files / twice in one file: every execution is a real execution
     if args.shard == 0 {
